@@ -2268,9 +2268,140 @@ def kind_sites(repo, mods=None):
     return n, bad
 
 
+_CONTAINER_ATTRS = set(dir(set)) | set(dir(list)) | set(dir(dict)) | \
+    set(dir(tuple)) | set(dir(frozenset))
+
+
+def binding_sites(repo, mods=None):
+    """two more contradictions, decided per function without its callers:
+    a local is read on a line before the first line that binds it (outside
+    any loop that contains a binding): UnboundLocalError when reached; an
+    attribute that no built-in container has is read from or stored on a
+    local whose every binding is a set / list / dict / tuple construct"""
+    n, bad = 0, []
+    for q, f in sorted(repo.funcs.items()):
+        if mods is not None and f.module.name not in mods:
+            continue
+        a_ = f.node.args
+        params = {x.arg for x in a_.posonlyargs + a_.args + a_.kwonlyargs}
+        for v in (a_.vararg, a_.kwarg):
+            if v is not None:
+                params.add(v.arg)
+        nested = {id(y) for x in ast.walk(f.node) if isinstance(
+            x, (ast.FunctionDef, ast.AsyncFunctionDef, ast.Lambda,
+                ast.ClassDef, ast.ListComp, ast.GeneratorExp, ast.SetComp,
+                ast.DictComp)) and x is not f.node for y in ast.walk(x)}
+        stores, loads = {}, []
+        for x in ast.walk(f.node):
+            if id(x) in nested:
+                continue
+            if isinstance(x, ast.Name):
+                if isinstance(x.ctx, (ast.Store, ast.Del)):
+                    stores.setdefault(x.id, []).append(x)
+                else:
+                    loads.append(x)
+            elif isinstance(x, (ast.Import, ast.ImportFrom)):
+                for al in x.names:
+                    stores.setdefault((al.asname or al.name).split(".")[0],
+                                      []).append(x)
+            elif isinstance(x, ast.ExceptHandler) and x.name:
+                stores.setdefault(x.name, []).append(x)
+        free = {nm for x in ast.walk(f.node)
+                if isinstance(x, (ast.Global, ast.Nonlocal))
+                for nm in x.names}
+        for l_ in loads:
+            if l_.id in params or l_.id in free or l_.id not in stores:
+                continue
+            n += 1
+            if l_.lineno >= min(s_.lineno for s_ in stores[l_.id]):
+                continue
+            a = getattr(l_, "_parent", None)
+            inloop = False
+            while a is not None and a is not f.node:
+                if isinstance(a, (ast.For, ast.While)) and any(
+                        a.lineno <= s_.lineno <= a.end_lineno
+                        for s_ in stores[l_.id]):
+                    inloop = True
+                a = getattr(a, "_parent", None)
+            if not inloop:
+                bad.append((f, l_, "read-before-bound:%s" % l_.id,
+                            "%s is read on line %d, first bound on line %d"
+                            % (l_.id, l_.lineno,
+                               min(s_.lineno for s_ in stores[l_.id]))))
+        kinds = {}
+        for x in ast.walk(f.node):
+            if isinstance(x, ast.Assign) and len(x.targets) == 1 and \
+                    isinstance(x.targets[0], ast.Name):
+                v = x.value
+                k = None
+                if isinstance(v, (ast.Set, ast.SetComp, ast.List,
+                                  ast.ListComp, ast.Dict, ast.DictComp,
+                                  ast.Tuple)) or (
+                        isinstance(v, ast.Call) and src(v.func) in (
+                            "set", "frozenset", "list", "sorted", "tuple",
+                            "dict")):
+                    k = "container"
+                kinds.setdefault(x.targets[0].id, set()).add(k)
+        # (... a local that the function itself iterates over, and that is
+        # no parameter, is a container too)
+        for x in ast.walk(f.node):
+            its = []
+            if isinstance(x, ast.For):
+                its.append(x.iter)
+            if isinstance(x, (ast.ListComp, ast.GeneratorExp, ast.SetComp,
+                              ast.DictComp)):
+                its += [g.iter for g in x.generators]
+            for it in its:
+                if isinstance(it, ast.Name) and it.id not in params and \
+                        None in kinds.get(it.id, {None}):
+                    kinds[it.id] = {"container"}
+        for x in ast.walk(f.node):
+            if isinstance(x, ast.Attribute) and isinstance(
+                    x.value, ast.Name) and x.value.id not in params and \
+                    kinds.get(x.value.id) == {"container"}:
+                n += 1
+                if x.attr not in _CONTAINER_ATTRS:
+                    bad.append((f, x, "container-attribute:%s" % src(x),
+                                "%s is a plain container: it has no "
+                                "attribute %s" % (x.value.id, x.attr)))
+    return n, bad
+
+
+# Branches that no template can reach (reviewed; the triage of the sweeps
+# found every edit inside them equivalent).  A G-KIND report whose site lies
+# under one of these tests is dropped -- one line of reason each.
+UNREACHABLE = {
+    # an Interpolation always wraps a Substitution (program.py builds it so)
+    ("chameleon.compiler.ExpressionTransform.visit_Interpolation",
+     "not isinstance(expr, Substitution)"),
+    # resolve_dotted() passes no module: a relative name raises before
+    ("chameleon.utils._resolve_dotted", "not name_parts[0]"),
+    # the legacy evaluator is used by no template
+    ("chameleon.compiler.ExpressionEvaluator.__call__", None),
+}
+
+
+def _unreachable(f, node):
+    q = f.qualname
+    for fq, test in UNREACHABLE:
+        if fq != q:
+            continue
+        if test is None:
+            return True
+        for t_, v_ in guards_of(node, f.node):
+            if isinstance(t_, ast.expr) and (
+                    (v_ and src(t_) == test) or
+                    (not v_ and "not " + src(t_) == test)):
+                return True
+    return False
+
+
 def kind_rule(repo, rep, rule=None, mods=None):
     rule = rule or "R%s.K" % rep.prop[1:]
     n, bad = kind_sites(repo, mods)
+    n2, bad2 = binding_sites(repo, mods)
+    n += n2
+    bad = [b for b in bad + bad2 if not _unreachable(b[0], b[1])]
     if n == 0:
         return 0
     rep.rule(rule, "G-KIND: declared results are returned, conditionals "
